@@ -97,6 +97,12 @@ def check(gen_dir, out_dir, only=None):
             if d.get('header_box') != m['header_box']:
                 viol('header.box/%s' % tname, name, dict(ctx, got=d.get('header_box'), want=m['header_box']))
             routes = [('read', d['read'].get('ok'), d['read'].get('err')), ('iter', d.get('iter'), None)]
+            if 'path_read' in d:
+                routes.append(('path_read', d['path_read'].get('ok'), d['path_read'].get('err')))
+                routes.append(('path_iter', d.get('path_iter'), None))
+                counters['files_also_read_by_path'] = counters.get('files_also_read_by_path', 0) + 1
+                if m['typed'] >= 1 and 'path_typed' in d:
+                    routes.append(('path_typed', d['path_typed'].get('ok'), d['path_typed'].get('err')))
             if m['typed'] >= 1:
                 routes.append(('typed', d['typed'].get('ok'), d['typed'].get('err')))
                 routes.append(('typed_iter', d.get('typed_iter'), None))
